@@ -2,6 +2,7 @@ pub mod engine;
 pub mod findings;
 pub mod kernel;
 pub mod numref;
+pub mod pyoracle;
 pub mod vals;
 
 pub use engine::Out;
